@@ -16,13 +16,13 @@ Definition mixed : list op :=
     COpenTry 2 false;                                           (* 2 proceeds *)
     DeliverC2S 1; SExit 1 KErr; DeliverS2C 1; DeliverS2C 1; CExit 1;
     COpenTry 3 false; CCancel 3; CExit 3; DeliverC2S 3; DeliverC2S 3; SExit 3 KErr;
-    DeliverC2S 2; CPause; CExit 2; CResume; CFlush; DeliverC2S 2; SExit 2 KBase ].
+    DeliverC2S 2; CPause; CExit 2; CResume; DeliverC2S 2; SExit 2 KBase ].
 
 Example mixed_all_exited :
   let s := run mixed (init 4 2) in
   allb is_cexited s = true /\ allb (fun k => negb (is_running k)) s = true /\
   allb (fun k => match k_qc k with [] => true | _ => false end) s = true /\
-  allb (fun k => negb (k_held k)) s = true /\
+  cpaused s = false /\
   creg s = [] /\ sreg s = [] /\ open_out s = 0%nat /\ open_in s = 0%nat.
 Proof. vm_compute. repeat split; reflexivity. Qed.
 
